@@ -3,6 +3,7 @@
 package mtproto
 
 import (
+	"reflect"
 	"github.com/xelaj/mtproto/internal/mode"
 	"github.com/xelaj/mtproto/internal/mtproto/messages"
 	"github.com/xelaj/mtproto/internal/mtproto/objects"
@@ -127,13 +128,20 @@ func H_C17_migrate(other int) {
 	crashed := verifrt.Catch(func() {
 		n.start()
 		var res, res2 c17Outcome
+		hinted := other == 2 // the migrated call declared a vector result (decoder hint): the repeated request must still carry it
 		go func() {
-			v, err := n.m.MakeRequest(&objects.PingParams{PingID: 1000})
+			var v interface{}
+			var err error
+			if hinted {
+				v, err = n.m.MakeRequestWithHintToDecoder(&objects.PingParams{PingID: 1000}, reflect.TypeOf([]int64{}))
+			} else {
+				v, err = n.m.MakeRequest(&objects.PingParams{PingID: 1000})
+			}
 			res.val, res.err = v, err
 			res.done++
 		}()
 		req := n.nextRequest(nil)
-		if other != 0 {
+		if other == 1 {
 			go func() {
 				v, err := n.m.MakeRequest(&objects.PingParams{PingID: 2000})
 				res2.val, res2.err = v, err
@@ -155,6 +163,18 @@ func H_C17_migrate(other int) {
 			n.t = second
 			again := n.nextRequest(nil)
 			verifrt.Assert(verifrt.SameBytes(again.body, req.body), "migrate-repeats-the-same-request")
+			if hinted {
+				tok := verifrt.I64()
+				n.deliver(rpcResult(again.msgID, vectorOfLongs([]int64{tok, 7})), 1)
+				verifrt.Quiesce()
+				verifrt.Assert(res.done == 1, "migrate-hinted-caller-returns")
+				if res.done == 1 {
+					v, ok := res.val.([]int64)
+					verifrt.Assert(res.err == nil && ok && len(v) == 2 && v[0] == tok && v[1] == 7, "migrate-hinted-caller-gets-its-typed-vector")
+				}
+				n.probe("after-migration-")
+				return
+			}
 			n.deliver(rpcResult(again.msgID, mustMarshal(&objects.Pong{MsgID: again.msgID, PingID: 1000})), 1)
 			verifrt.Quiesce()
 			verifrt.Assert(res.done == 1, "migrate-caller-returns")
